@@ -32,8 +32,18 @@ Numbered == {Number(s, 1).tr : s \in UNION {Shapes(n) : n \in 1..MaxLeaves}}
 Trees == Numbered \cup {Relabel(tr, 1) : tr \in Numbered} \cup {Relabel(tr, 2) : tr \in Numbered}
 \* the deep chains are kept out of the set of shapes (normalising a large set that contains
 \* 129-deep records overflows TLC's stack) and appended as a sequence
+\* a bush at the bottom of a chain: several sibling pairs at the same (maximal) depth
+Bush4(k) == TNode(TNode(TLeaf(k), TLeaf(k + 1)), TNode(TLeaf(k + 2), TLeaf(k + 3)))
+Bush3(k) == TNode(TNode(TLeaf(k), TLeaf(k + 1)), TLeaf(k + 2))
+RECURSIVE LeftChainOver(_, _, _)
+LeftChainOver(d, k, bottom) == IF d = 0 THEN bottom ELSE TNode(LeftChainOver(d - 1, k + 1, bottom), TLeaf(k))
+RECURSIVE RightChainOver(_, _, _)
+RightChainOver(d, k, bottom) == IF d = 0 THEN bottom ELSE TNode(TLeaf(k), RightChainOver(d - 1, k + 1, bottom))
+BushSeq == <<LeftChainOver(126, 10, Bush4(1)), RightChainOver(126, 10, Bush4(1)), RightChainOver(125, 10, Bush4(1)),
+             RightChainOver(126, 10, Bush3(1)), LeftChainOver(127, 10, Bush4(1)),
+             RightChainOver(125, 10, TNode(Bush4(1), Bush4(5)))>>
 ChainSeq == LET D == SetToSeq(ChainDepths) IN
-            [q \in 1..(2 * Len(D)) |-> IF q <= Len(D) THEN LeftChain(D[q], 1) ELSE RightChain(D[q - Len(D)], 1)]
+            [q \in 1..(2 * Len(D)) |-> IF q <= Len(D) THEN LeftChain(D[q], 1) ELSE RightChain(D[q - Len(D)], 1)] \o BushSeq
 
 TreeSeq == SetToSeq(Trees) \o ChainSeq
 Cases == [q \in 1..Len(TreeSeq) |-> [id |-> q, dl |-> DepthList(TreeSeq[q])]]
